@@ -63,6 +63,21 @@ def _locals_of(fn: ast.FunctionDef) -> set:
     return out
 
 
+def _comprehension_only_names(fn: ast.FunctionDef) -> set:
+    inside = set()
+    for n in ast.walk(fn):
+        if isinstance(n, ast.comprehension):
+            for x in ast.walk(n.target):
+                if isinstance(x, ast.Name):
+                    inside.add(id(x))
+    comp = set()
+    other = set()
+    for n in ast.walk(fn):
+        if isinstance(n, ast.Name) and isinstance(n.ctx, (ast.Store, ast.Del)):
+            (comp if id(n) in inside else other).add(n.id)
+    return comp - other
+
+
 def _unsupported(fn: ast.FunctionDef) -> bool:
     for n in ast.walk(fn):
         if n is fn:
@@ -272,9 +287,18 @@ class Inliner:
                 tmp = pre + p
                 setup.append(ast.copy_location(ast.Assign(targets=[ast.Name(id=tmp, ctx=ast.Store())], value=copy.deepcopy(v), lineno=call.lineno), call))
                 mapping[p] = tmp
+        # names bound only inside comprehensions live in the comprehension's own scope: they keep their name unless an
+        # argument expression that is substituted into the helper mentions the same name (capture)
+        comp_only = _comprehension_only_names(h.node)
+        arg_names = set()
+        for v in mapping.values():
+            if not isinstance(v, str):
+                arg_names |= {n.id for n in ast.walk(v) if isinstance(n, ast.Name)}
         for l in stored:
             if l not in mapping or not isinstance(mapping.get(l), str):
                 if l in params + kwonly:
+                    continue
+                if l in comp_only and l not in arg_names:
                     continue
                 mapping[l] = pre + l
         return mapping, setup
